@@ -20,9 +20,12 @@ for meta_path in sorted(glob.glob(V + "/seeded/*/meta.json")):
     det = []
     try:
         for p in props:
-            r = subprocess.run(["./check", p, "--tier", "quick"], cwd=V, capture_output=True, text=True)
-            sigs = sorted(set(re.findall(r"^  signature: (.*)$", r.stdout, re.M)))
-            det.append(dict(check=p, tier="quick", exit=r.returncode, signatures=sigs[:6]))
+            try:
+                r = subprocess.run(["timeout", "-k", "30", "2400", "./check", p, "--tier", "quick"], cwd=V, capture_output=True, text=True)
+                sigs = sorted(set(re.findall(r"^  signature: (.*)$", r.stdout, re.M)))
+                det.append(dict(check=p, tier="quick", exit=r.returncode, signatures=sigs[:6]))
+            finally:
+                subprocess.run(["pkill", "-9", "-f", "verif/build/.*[.]test"])
     finally:
         subprocess.run(["git", "-C", "/repo", "checkout", "--", "."])
     meta["detected_by"] = det
